@@ -1,2 +1,199 @@
-import FpgoVerif.Model.C20
-/-! Property theorems for C20 (none yet). -/
+import FpgoVerif.Proofs.C20Comb
+import FpgoVerif.Proofs.C20Curry
+import FpgoVerif.Proofs.C20Match
+import FpgoVerif.Gen.Skeletons
+/-! Property theorems for C20 — "Combinators compose in the documented order; pattern matching is
+    first-match".  Every theorem is about the definitions of `Model/C20*.lean` that the driver runs. -/
+namespace FpgoVerif.C20
+
+variable {α : Type}
+
+/-! ## Compose / Pipe -/
+
+/-- `Compose(f1..fn)(x) = f1(f2(...fn(x)))` (functions may panic: Kleisli right fold). -/
+theorem C20_compose (fs : List (Fn α)) (s : List α) (h : fs ≠ []) :
+    compose fs s = fs.foldr (fun f acc => acc.bind f) (.ok s) := compose_eq_foldr fs s h
+example : compose [total (List.map (4 * · + 1)), total (List.map (4 * · + 2))] [1] = .ok [25] := by decide
+
+/-- the same for functions that never panic: plain nested application, innermost = last -/
+theorem C20_compose_total (fs : List (List α → List α)) (s : List α) (h : fs ≠ []) :
+    compose (fs.map total) s = .ok (fs.foldr (fun f acc => f acc) s) := by
+  rw [compose_eq_foldr _ _ (by simpa using h)]
+  induction fs with
+  | nil => exact absurd rfl h
+  | cons f rest ih =>
+    cases rest with
+    | nil => rfl
+    | cons g rest' =>
+      have := ih (by simp)
+      simp only [foldrK, List.map_cons, List.foldr_cons] at this ⊢
+      rw [this]; rfl
+
+/-- `Pipe(f1..fn)(x) = fn(...f1(x))` (Kleisli left fold). -/
+theorem C20_pipe (fs : List (Fn α)) (s : List α) (h : fs ≠ []) :
+    pipe fs s = fs.foldl (fun acc f => acc.bind f) (.ok s) := pipe_eq_foldl fs s h
+example : pipe [total (List.map (4 * · + 1)), total (List.map (4 * · + 2))] [1] = .ok [22] := by
+  rw [C20_pipe _ _ (by simp)]; decide
+
+theorem C20_pipe_total (fs : List (List α → List α)) (s : List α) (h : fs ≠ []) :
+    pipe (fs.map total) s = .ok (fs.foldl (fun acc f => f acc) s) := by
+  rw [pipe_eq_foldl _ _ (by simpa using h)]
+  simp only [foldlK]
+  clear h
+  induction fs generalizing s with
+  | nil => rfl
+  | cons f rest ih => simp only [List.map_cons, List.foldl_cons]; exact ih (f s)
+
+/-- the empty function list panics (index out of range), for both -/
+theorem C20_compose_pipe_empty (s : List α) :
+    compose ([] : List (Fn α)) s = .panic ∧ pipe ([] : List (Fn α)) s = .panic := ⟨rfl, pipe_nil s⟩
+
+/-- `Compose(fs) = Pipe(reverse(fs))`, for every list (both panic on the empty one). -/
+theorem C20_compose_pipe_reverse (fs : List (Fn α)) (s : List α) : compose fs s = pipe fs.reverse s := by
+  by_cases h : fs = []
+  · subst h; exact (pipe_nil s).symm ▸ rfl
+  · rw [compose_eq_foldr fs s h, pipe_eq_foldl fs.reverse s (by simpa using h), foldlK_reverse]
+
+/-- associativity under regrouping: `Compose(fs ++ gs) = Compose(Compose(fs), Compose(gs))` -/
+theorem C20_compose_regroup (fs gs : List (Fn α)) (s : List α) (hf : fs ≠ []) (hg : gs ≠ []) :
+    compose (fs ++ gs) s = compose [compose fs, compose gs] s := by
+  rw [compose_eq_foldr _ _ (by simp [hf]), foldrK_append]
+  simp only [compose]
+  rw [compose_eq_foldr gs s hg]
+  congr 1
+  funext x
+  exact (compose_eq_foldr fs x hf).symm
+example : ([total (List.map (· + 1))] : List (Fn Int)) ≠ [] := by simp
+
+/-- `Pipe(fs ++ gs) = Pipe(Pipe(fs), Pipe(gs))` -/
+theorem C20_pipe_regroup (fs gs : List (Fn α)) (s : List α) (hf : fs ≠ []) (hg : gs ≠ []) :
+    pipe (fs ++ gs) s = pipe [pipe fs, pipe gs] s := by
+  rw [pipe_eq_foldl _ _ (by simp [hf]), foldlK_append, pipe_eq_foldl [pipe fs, pipe gs] s (by simp)]
+  simp only [foldlK, List.foldl_cons, List.foldl_nil, Res.bind_ok]
+  rw [pipe_eq_foldl fs s hf]
+  congr 1
+  funext x
+  exact (pipe_eq_foldl gs x hg).symm
+
+/-- the implementation model and the Spec the oracle (`judge`) evaluates agree on every input -/
+theorem C20_compose_pipe_spec (fs : List (Fn α)) (s : List α) :
+    compose fs s = Spec.compose fs s ∧ pipe fs s = Spec.pipe fs s := by
+  cases fs with
+  | nil => exact ⟨rfl, pipe_nil s⟩
+  | cons f rest => exact ⟨compose_eq_foldr _ _ (by simp), pipe_eq_foldl _ _ (by simp)⟩
+
+/-! ## Adapters: exactly the bound, then the supplied arguments, in order -/
+
+/-- `MakeVariadicParamN` hands `args[0..N-1]` to `fn` in order, ignores the rest, and panics exactly when
+    fewer than `N` are supplied. -/
+theorem C20_makeVariadicParam {β : Type} (args : List α) :
+    (∀ fn : α → β, makeVariadicParam1 fn args =
+      if h : 1 ≤ args.length then .ok (fn args[0]) else .panic) ∧
+    (∀ fn : α → α → β, makeVariadicParam2 fn args =
+      if h : 2 ≤ args.length then .ok (fn args[0] args[1]) else .panic) ∧
+    (∀ fn : α → α → α → β, makeVariadicParam3 fn args =
+      if h : 3 ≤ args.length then .ok (fn args[0] args[1] args[2]) else .panic) ∧
+    (∀ fn : α → α → α → α → β, makeVariadicParam4 fn args =
+      if h : 4 ≤ args.length then .ok (fn args[0] args[1] args[2] args[3]) else .panic) ∧
+    (∀ fn : α → α → α → α → α → β, makeVariadicParam5 fn args =
+      if h : 5 ≤ args.length then .ok (fn args[0] args[1] args[2] args[3] args[4]) else .panic) ∧
+    (∀ fn : α → α → α → α → α → α → β, makeVariadicParam6 fn args =
+      if h : 6 ≤ args.length then .ok (fn args[0] args[1] args[2] args[3] args[4] args[5]) else .panic) := by
+  refine ⟨?_, ?_, ?_, ?_, ?_, ?_⟩ <;> intro fn
+  · rcases args with _ | ⟨a0, _⟩ <;> simp [makeVariadicParam1]
+  · rcases args with _ | ⟨a0, _ | ⟨a1, _⟩⟩ <;> simp [makeVariadicParam2]
+  · rcases args with _ | ⟨a0, _ | ⟨a1, _ | ⟨a2, _⟩⟩⟩ <;> simp [makeVariadicParam3]
+  · rcases args with _ | ⟨a0, _ | ⟨a1, _ | ⟨a2, _ | ⟨a3, _⟩⟩⟩⟩ <;> simp [makeVariadicParam4]
+  · rcases args with _ | ⟨a0, _ | ⟨a1, _ | ⟨a2, _ | ⟨a3, _ | ⟨a4, _⟩⟩⟩⟩⟩ <;> simp [makeVariadicParam5]
+  · rcases args with _ | ⟨a0, _ | ⟨a1, _ | ⟨a2, _ | ⟨a3, _ | ⟨a4, _ | ⟨a5, _⟩⟩⟩⟩⟩⟩ <;> simp [makeVariadicParam6]
+
+/-- `MakeVariadicReturnN` passes all arguments and returns the N results in order. -/
+theorem C20_makeVariadicReturn {β : Type} (args : List α) :
+    (∀ fn : List α → β, makeVariadicReturn1 fn args = [fn args]) ∧
+    (∀ fn : List α → β × β, makeVariadicReturn2 fn args = [(fn args).1, (fn args).2]) ∧
+    (∀ fn : List α → β × β × β, makeVariadicReturn3 fn args = [(fn args).1, (fn args).2.1, (fn args).2.2]) ∧
+    (∀ fn : List α → β × β × β × β, makeVariadicReturn4 fn args =
+      [(fn args).1, (fn args).2.1, (fn args).2.2.1, (fn args).2.2.2]) ∧
+    (∀ fn : List α → β × β × β × β × β, makeVariadicReturn5 fn args =
+      [(fn args).1, (fn args).2.1, (fn args).2.2.1, (fn args).2.2.2.1, (fn args).2.2.2.2]) ∧
+    (∀ fn : List α → β × β × β × β × β × β, makeVariadicReturn6 fn args =
+      [(fn args).1, (fn args).2.1, (fn args).2.2.1, (fn args).2.2.2.1, (fn args).2.2.2.2.1, (fn args).2.2.2.2.2]) :=
+  ⟨fun _ => rfl, fun _ => rfl, fun _ => rfl, fun _ => rfl, fun _ => rfl, fun _ => rfl⟩
+
+/-- `CurryParamN(fn, bound…)(supplied…)` calls `fn` with exactly `bound ++ supplied` (stated for an
+    `fn` that looks at its whole argument list `g`). -/
+theorem C20_curryParam {β : Type} (g : List α → β) (a b c d e f : α) (args : List α) :
+    curryParam1 (fun a rest => g (a :: rest)) a args = g ([a] ++ args) ∧
+    curryParam1ForSlice1 (fun a rest => g (a :: rest)) a args = g ([a] ++ args) ∧
+    curryParam2 (fun a b rest => g (a :: b :: rest)) a b args = g ([a, b] ++ args) ∧
+    curryParam3 (fun a b c rest => g (a :: b :: c :: rest)) a b c args = g ([a, b, c] ++ args) ∧
+    curryParam4 (fun a b c d rest => g (a :: b :: c :: d :: rest)) a b c d args = g ([a, b, c, d] ++ args) ∧
+    curryParam5 (fun a b c d e rest => g (a :: b :: c :: d :: e :: rest)) a b c d e args = g ([a, b, c, d, e] ++ args) ∧
+    curryParam6 (fun a b c d e f rest => g (a :: b :: c :: d :: e :: f :: rest)) a b c d e f args
+      = g ([a, b, c, d, e, f] ++ args) :=
+  ⟨rfl, rfl, rfl, rfl, rfl, rfl, rfl⟩
+
+/-! ## Trampoline -/
+
+/-- `Trampoline` = "iterate the step until the first iterate on which it reports done or an error"
+    (error has priority; `hang` when no such iterate exists within the fuel). -/
+theorem C20_trampoline (fn : List α → StepOut α) (fuel : Nat) (s : List α) :
+    trampoline fn fuel s = Spec.trampoline fn fuel s := by
+  induction fuel generalizing s with
+  | zero => rfl
+  | succ n ih =>
+    have hrange : List.range (n + 1) = 0 :: (List.range n).map (· + 1) := by
+      rw [List.range_succ_eq_map]
+    unfold Spec.trampoline
+    rw [hrange, List.find?_cons]
+    cases herr : (fn s).err with
+    | some e =>
+      have : Spec.stops fn s 0 = true := by simp [Spec.stops, Spec.iter, herr]
+      simp [trampoline, herr, this, Spec.iter]
+    | none =>
+      cases hd : (fn s).isDone with
+      | true =>
+        have : Spec.stops fn s 0 = true := by simp [Spec.stops, Spec.iter, herr, hd]
+        simp [trampoline, herr, hd, this, Spec.iter]
+      | false =>
+        have : Spec.stops fn s 0 = false := by simp [Spec.stops, Spec.iter, herr, hd]
+        simp only [trampoline, herr, hd, this, List.find?_map]
+        rw [ih (fn s).result]
+        unfold Spec.trampoline
+        have hcomp : (Spec.stops fn s ∘ fun x => x + 1) = Spec.stops fn (fn s).result := by
+          funext k; exact stops_succ fn s k
+        simp only [Bool.false_eq_true, if_false, hcomp]
+        cases (List.range n).find? (Spec.stops fn (fn s).result) with
+        | none => rfl
+        | some k => simp [iter_succ']
+
+/-- the result is that of the first stopping iterate `k` (if it is reached within the fuel) -/
+theorem C20_trampoline_first_stop (fn : List α → StepOut α) (fuel : Nat) (s : List α) (k : Nat)
+    (hk : k < fuel) (hbefore : ∀ j, j < k → Spec.stops fn s j = false) (hstop : Spec.stops fn s k = true) :
+    trampoline fn fuel s =
+      match (fn (Spec.iter fn s k)).err with
+      | some e => .err e
+      | none => .ok (fn (Spec.iter fn s k)).result := by
+  rw [C20_trampoline]
+  unfold Spec.trampoline
+  have : (List.range fuel).find? (Spec.stops fn s) = some k := by
+    rw [List.find?_eq_some_iff_append]
+    refine ⟨hstop, List.range k, (List.range (fuel - k - 1)).map (· + (k + 1)), ?_, ?_⟩
+    · have : fuel = k + (1 + (fuel - k - 1)) := by omega
+      conv => lhs; rw [this, List.range_add, List.range_add]
+      simp [List.map_map, Nat.add_comm, Nat.add_left_comm, Function.comp_def]
+    · intro a ha; simp at ha; simp [hbefore a ha]
+  rw [this]
+  rfl
+example : Spec.stops (trStep 3 (-1) 0) [0, 5] 2 = true ∧ Spec.stops (trStep 3 (-1) 0) [0, 5] 1 = false := by decide
+
+/-- no stopping iterate within the fuel: the loop is still running -/
+theorem C20_trampoline_runs_on (fn : List α → StepOut α) (fuel : Nat) (s : List α)
+    (h : ∀ j, j < fuel → Spec.stops fn s j = false) : trampoline fn fuel s = .hang := by
+  rw [C20_trampoline]
+  unfold Spec.trampoline
+  have : (List.range fuel).find? (Spec.stops fn s) = none := by
+    rw [List.find?_eq_none]; intro x hx; simp at hx; simp [h x hx]
+  rw [this]
+
+end FpgoVerif.C20
